@@ -464,6 +464,10 @@ class Evaluator:
                 if 0 <= j < len(keys):
                     return Ptr(base.c, keys[j])
                 raise ExtractionBreak("mathvc: index out of aggregate")
+            if isinstance(base, C) and base.kind == "array":
+                if 0 <= idx < len(base.keys):
+                    return Ptr(base, base.keys[idx])
+                raise ExtractionBreak("mathvc: index out of array")
             raise ExtractionBreak("mathvc: index on %r" % (base,))
         if k == "comma":
             self.ev(a[0], st)
@@ -616,8 +620,8 @@ class Evaluator:
 
     def literal(self, t):
         t = t.strip()
-        if t.startswith("((void*)0)"):
-            return None
+        if t.startswith("((void*)0)") or t.startswith('"'):
+            return None   # null / string literal: an opaque pointer the math back end never dereferences
         if t in ("__builtin_inff()", "__builtin_inf()", "(1.0/0.0)"):
             return Inf(1)
         if t in ("(-__builtin_inff())", "(-__builtin_inf())"):
@@ -626,6 +630,11 @@ class Evaluator:
         if m:
             s = m.group(1)
             if self.mode == "real":
+                if getattr(self, "exact_f32", False) and m.group(2) in ("f", "F"):
+                    import struct
+                    from fractions import Fraction
+                    fr = Fraction(struct.unpack("f", struct.pack("f", float(s)))[0])   # the float the literal denotes, exactly
+                    return z3.RealVal(str(fr.numerator)) / z3.RealVal(str(fr.denominator))
                 return z3.RealVal(s)
             if re.search(r"[.eE]", s):
                 f = float(s)
